@@ -14,12 +14,16 @@ def space(kind, n=2):
         return odl.rn(n, weighting=2.0)
     if kind == 'arn':                       # array weighting
         return odl.rn(n, weighting=[1.0, 2.0, 4.0][:n])
-    if kind == 'discr':                     # cell volume 1/2
-        return odl.uniform_discr(0, n / 2.0, n)
+    if kind == 'discr':                     # cell volume 1/4 (sqrt exact)
+        return odl.uniform_discr(0, n / 4.0, n)
     if kind == 'pspace':
         return odl.ProductSpace(odl.rn(n), 2)
     if kind == 'dpspace':
-        return odl.ProductSpace(odl.uniform_discr(0, n / 2.0, n), 2)
+        return odl.ProductSpace(odl.uniform_discr(0, n / 4.0, n), 2)
+    if kind == 'wpspace':
+        return odl.ProductSpace(odl.rn(n), 2, weighting=[1.0, 4.0])
+    if kind == 'cpspace':
+        return odl.ProductSpace(odl.rn(n), 2, weighting=2.0)
     if kind == 'rn1':
         return odl.rn(1)
     raise ValueError(kind)
@@ -115,6 +119,10 @@ frecipe('QuadraticForm/vec-only', ('rn',), 'pl', [DEF + 'QuadraticForm'])(
 frecipe('QuadraticForm/scaling-op', ('rn', 'discr'), 'pl', [DEF + 'QuadraticForm'])(
     lambda ctx, sp: S.QuadraticForm(operator=odl.ScalingOperator(sp, 3.0), vector=sp.one()))
 frecipe('Huber', ALLS, 'pl', [DEF + 'Huber'])(lambda ctx, sp: S.Huber(sp, gamma=0.5))
+frecipe('Huber/pspace', ('pspace', 'wpspace', 'cpspace'), 'sqrt', [DEF + 'Huber'])(lambda ctx, sp: S.Huber(sp, gamma=0.5))
+frecipe('GroupL1Norm/weighted', ('wpspace', 'cpspace'), 'sqrt', [DEF + 'GroupL1Norm'])(lambda ctx, sp: S.GroupL1Norm(sp))
+frecipe('L2NormSquared/wpspace', ('wpspace', 'cpspace'), 'pl', [DEF + 'L2NormSquared'])(lambda ctx, sp: S.L2NormSquared(sp))
+frecipe('L1Norm/wpspace', ('wpspace',), 'pl', [DEF + 'L1Norm'])(lambda ctx, sp: S.L1Norm(sp))
 frecipe('IndicatorSimplex', ('rn',), 'ind', [DEF + 'IndicatorSimplex'])(lambda ctx, sp: S.IndicatorSimplex(sp))
 frecipe('IndicatorSimplex/diam2', ('rn',), 'ind', [DEF + 'IndicatorSimplex'])(
     lambda ctx, sp: S.IndicatorSimplex(sp, diameter=2))
@@ -131,6 +139,12 @@ frecipe('derived/a*L1', ('rn',), 'pl', [FUN + 'FunctionalLeftScalarMult'])(
     lambda ctx, sp: ctx.real('c0', pos=True) * S.L1Norm(sp))
 frecipe('derived/a*L2sq', ('rn', 'discr'), 'pl', [FUN + 'FunctionalLeftScalarMult'])(
     lambda ctx, sp: ctx.real('c0', pos=True) * S.L2NormSquared(sp))
+frecipe('derived/(-3)*L2sq', ('rn', 'discr'), 'pl', [FUN + 'FunctionalLeftScalarMult'])(
+    lambda ctx, sp: (-3.0) * S.L2NormSquared(sp))
+frecipe('derived/L2sq-Huber', ('rn',), 'pl', [FUN + 'FunctionalSum'])(
+    lambda ctx, sp: S.L2NormSquared(sp) - S.Huber(sp, 0.5))
+frecipe('derived/a*Huber/any-sign', ('rn',), 'pl', [FUN + 'FunctionalLeftScalarMult'])(
+    lambda ctx, sp: ctx.real('c0', nonzero=True) * S.Huber(sp, 0.5))
 frecipe('derived/L1*2', ALLS, 'pl', [FUN + 'FunctionalRightScalarMult'])(lambda ctx, sp: S.L1Norm(sp) * 2.0)
 frecipe('derived/L2sq*a', ('rn', 'discr'), 'pl', [FUN + 'FunctionalRightScalarMult'])(
     lambda ctx, sp: S.L2NormSquared(sp) * ctx.real('c0', nonzero=True))
